@@ -109,7 +109,13 @@ func (f *recFilter) Write(p []byte) ([]byte, int) {
 			f.Fired = append(f.Fired, firedFault{Kind: "replay", Rec: i, IncludesOriginal: true})
 		case "insert":
 			g := []byte{rec[0], rec[1], rec[2], 0, 0}
-			body := make([]byte, 24+wf.Off%64)
+			// a well-framed record of the same type and version with an arbitrary body: short bodies (below the
+			// explicit nonce, tag or MAC length of the suite) as well as plausible ones
+			bl := 24 + wf.Off%64
+			if wf.Bit < 5 {
+				bl = []int{0, 1, 2, 3, 4, 5, 7, 8, 9, 12, 15, 16, 17, 20, 23}[wf.Off%15]
+			}
+			body := make([]byte, bl)
 			r := kit.NewRng(uint64(wf.Ref)*977 + uint64(i))
 			r.Fill(body)
 			g[3], g[4] = byte(len(body)>>8), byte(len(body))
